@@ -53,9 +53,9 @@ type engine struct {
 	owners  []string
 	casBy   map[string]map[int]bool // key -> nodes that issued a CAS
 	// tombstones each node is known to hold: node -> entity -> ts
-	knownTomb []map[string]int64
-	delivered map[int]map[int]bool // wire id -> nodes it was delivered to
-	maxDelivered []int             // per node: highest wire id delivered so far (reordering witness)
+	knownTomb    []map[string]int64
+	delivered    map[int]map[int]bool // wire id -> nodes it was delivered to
+	maxDelivered []int                // per node: highest wire id delivered so far (reordering witness)
 	restartedAt  []time.Time
 	strict       bool
 	tainted      bool // a corrupted message that still decodes was merged: its content is not a fact any writer produced
@@ -73,7 +73,9 @@ func (e *engine) log(f string, a ...any) {
 
 func homeOf(idx, n int) int { return idx % n }
 
-func instPool(idx int) []uint32 { return []uint32{uint32(idx*10 + 1), uint32(idx*10 + 2), uint32(idx*10 + 3)} }
+func instPool(idx int) []uint32 {
+	return []uint32{uint32(idx*10 + 1), uint32(idx*10 + 2), uint32(idx*10 + 3)}
+}
 
 // tombstonesOf lists entity -> tombstone timestamp for a full state.
 func tombstonesOf(r *ring.Desc, p *ring.PartitionRingDesc) map[string]int64 {
